@@ -394,6 +394,42 @@ def into_impl_set_shape():
                  exercises=["impl/src/into.rs::ConversionsAttribute::merge_attrs", "impl/src/into.rs::Expansion"])
 
 
+def into_typed_groups_shape():
+    """Several `owned(..)` / `ref(..)` / `ref_mut(..)` groups of the SAME kind inside one attribute: one impl per listed type of every group
+    (seed C08-into-same-kind-group-replaces-earlier kept only the last group of a kind)."""
+    D = "#[derive(Clone, Copy, PartialEq, Debug, derive_more::Into)]\n"
+    decl = (D + "#[into(owned(TA), owned(A))]\npub struct G1(pub A);\n" +
+            D + "#[into(owned((TA, TB)), ref, owned((A, B)))]\npub struct G2(pub A, pub B);\n" +
+            D + "#[into(ref(A), ref_mut(A), ref(TA2))]\npub struct G3 { pub a: A }\n" +
+            D + "pub struct G4(#[into(owned(TA), owned(A))] pub A, pub B);\n" +
+            "#[derive(Clone, Copy, PartialEq, Debug)]\npub struct TA2(pub u16);\nimpl<'a> From<&'a A> for TA2 { fn from(a: &'a A) -> TA2 { TA2(a.0) } }\n"
+            "impl<'a> From<&'a A> for &'a TA2 { fn from(a: &'a A) -> &'a TA2 { unsafe { &*(a as *const A as *const TA2) } } }")
+    src = """    #[kani::proof]
+    fn every_group_of_a_kind_generates_its_impls() {
+        assert!(has_from!(TA, G1) && has_from!(A, G1), "#[into(owned(TA), owned(A))]: one impl per listed type of BOTH groups");
+        assert!(has_from!((TA, TB), G2) && has_from!((A, B), G2) && has_from!((&'static A, &'static B), &'static G2), "two owned groups around a bare ref");
+        assert!(!has_from!((&'static mut A, &'static mut B), &'static mut G2));
+        assert!(has_from!(&'static A, &'static G3) && has_from!(&'static mut A, &'static mut G3) && has_from!(&'static TA2, &'static G3), "two ref groups around a ref_mut group");
+        assert!(has_from!(TA, G4) && has_from!(A, G4), "field level");
+        let a = A(kani::any());
+        let b = B(kani::any());
+        let t: TA = G1(a).into();
+        let o: A = G1(a).into();
+        assert!(t == TA::from(a) && o == a);
+        let (ta, tb): (TA, TB) = G2(a, b).into();
+        let (oa, ob): (A, B) = G2(a, b).into();
+        assert!(ta == TA::from(a) && tb == TB::from(b) && oa == a && ob == b);
+        let t4: TA = G4(a, b).into();
+        assert!(t4 == TA::from(a));
+        kani::cover!(true, "reach end");
+    }
+"""
+    hs = [Harness("every_group_of_a_kind_generates_its_impls", "field values free u16 (the impl-set assertions are concrete: rustc's trait resolution)", covers=1,
+                  asserts="with several groups of one kind in one #[into(..)], an impl exists for every listed type of every group, and converts the fields")]
+    return Shape("c08_into_impl_set_typed_groups", module(decl, src), hs, decl.replace("\n", " "),
+                 exercises=["impl/src/into.rs::ConversionsAttribute::parse (parse_inner)", "impl/src/into.rs::Expansion"])
+
+
 ABSENT_IMPLS = [
     ("unannotated_variant_after_explicit", "no From for an un-annotated variant once a variant carries #[from]",
      "#[derive(derive_more::From)] pub enum E { #[from] A(u8), B(u16) } pub fn f() -> E { E::from(1u16) }"),
@@ -429,6 +465,7 @@ def absent_impl_shapes():
 def shapes(tier):
     out = []
     out.append(into_impl_set_shape())
+    out.append(into_typed_groups_shape())
     out.append(plain_shape(St("unit", [])))
     for kind in ("tuple", "named"):
         for n in (0, 1, 2, 3):
